@@ -15,6 +15,8 @@ Eval vm_compute in ("cex"%string,
   | Some bs =>
       let t := match find (fun t => negb (outcome_eqb scres_eqb (last_of t) (last_of (bs ++ t)))) continuations with
                | Some t => t | None => [0x1C] end in
+      (* the offending transition itself panics: that stream is the witness *)
+      if negb (is_ret (last_of bs)) then [(2 :: bs, [9], [0])] else
       [(2 :: bs ++ t, enc_sc (last_of t), enc_sc (last_of (bs ++ t)))]
   | None => []
   end).
